@@ -1,4 +1,5 @@
 import Juniper.Proofs.TreeIterProps
+import Juniper.Proofs.TreeIterRun
 /-!
 # C02 — tree iterators stay correct while the tree is modified between Next calls (property theorems)
 
@@ -102,6 +103,28 @@ theorem seeks_least_greatest (cmp : K → K → Int) (hs : StrictWeak cmp) {t : 
       (by intro c h; simp [seekLastLessStep]; omega) c0 k
     simpa [seekLastLessStep, seekLastLess] using this
 
+/-- **"It never spins", the `Next → Seek → Next` recursion** (audit C02-F6). The Go `Seek*` methods end in `c.Next()` /
+`c.Prev()`, and `cursor.Next` / `Prev` begin with `if c.lost() { c.SeekFirstGreater(c.k); return }`: were the cursor lost
+right after `seek`, the code would recurse. The model's `stepFwd` / `stepBwd` evaluate the regenerated `lost()` there
+and, if it were true, stop (`c` unchanged) instead of recursing — a cut-off. It is unreachable: `seek` parks the cursor
+with the tree's generation (the regenerated `seekSetsGen`: `c.gen = c.t.gen` is in the source), so `lost()` is false
+whatever the tree looks like, and `stepFwd` / `stepBwd` are exactly one `nextCore` / `prevCore` move. -/
+theorem seek_then_step_never_recurses (cmp : K → K → Int) (t : Tree K V) (c c' : Cursor K) (k : K)
+    (h : seek cmp t c k = (c', true)) :
+    lostAt cmp t c' = false ∧
+    ∀ p, c'.pos = some p →
+      stepFwd cmp t c' = { c' with pos := nextCore t p } ∧ stepBwd cmp t c' = { c' with pos := prevCore t p } := by
+  have hgen : seekSetsGen = true := by decide
+  have hg : c'.gen = t.gen := by
+    unfold seek at h
+    split at h
+    · cases h
+    · simp only [hgen, if_true, Prod.mk.injEq, and_true] at h
+      rw [← h]
+  have hl := lostAt_of_gen_eq cmp t c' hg
+  refine ⟨hl, fun p hp => ?_⟩
+  simp [stepFwd, stepBwd, hp, hl]
+
 /-- **Refinement.** For every script that interleaves `Put`/`Delete` (of any keys) with the creation of
 `Range`/`RangeReverse` iterators (any bounds) and `Next` calls on any number of simultaneously live
 iterators, starting from any reachable tree with any set of live iterators: the model runs to completion
@@ -144,13 +167,20 @@ theorem iter_strict_monotone (cmp : K → K → Int) (hs : StrictWeak cmp) {L1 L
     dcmp cmp it.fwd e1.1 e2.1 < 0 :=
   snext_strict_monotone hs h1 h2 hn1 hn2
 
-/-- "… and inside its bounds": a fresh `Range`/`RangeReverse` iterator starts inside its near bound, every `Next`
-keeps it there, and every yielded key is inside the near bound and satisfies the far-bound (`While`) predicate. -/
-theorem iter_in_bounds (cmp : K → K → Int) (hs : StrictWeak cmp) {L : List (K × V)} (hL : Sorted cmp L) (lo hi : Bound K)
-    {it it' : SIter K} {out : Option (K × V)}
-    (hinv : ∀ k, it.resume = some k → nearFn cmp it.fwd lo hi k = true) (h : snext cmp L it = (it', out)) :
-    (∀ e, out = some e → nearFn cmp it.fwd lo hi e.1 = true ∧ keepFn cmp it.stop e.1 = true) ∧
-    (it'.fwd = it.fwd ∧ ∀ k, it'.resume = some k → nearFn cmp it'.fwd lo hi k = true) := by
+/-- "… and inside its bounds": a fresh `Range`/`RangeReverse` iterator starts inside its near bound (first conjunct:
+`smk`, the specification's iterator for `Range(lo, hi)` / `RangeReverse(lo, hi)` on whatever map, direction `fwd`, far
+bound `stopOf fwd lo hi`), every `Next` keeps it there, and every yielded key is inside the near bound and satisfies the
+far-bound (`While`) predicate. -/
+theorem iter_in_bounds (cmp : K → K → Int) (hs : StrictWeak cmp) {L : List (K × V)} (hL : Sorted cmp L) (lo hi : Bound K) :
+    (∀ (L0 : List (K × V)) (fwd : Bool),
+      (smk cmp L0 fwd lo hi).fwd = fwd ∧ (smk cmp L0 fwd lo hi).stop = stopOf fwd lo hi ∧
+      ∀ k, (smk cmp L0 fwd lo hi).resume = some k → nearFn cmp fwd lo hi k = true) ∧
+    ∀ {it it' : SIter K} {out : Option (K × V)},
+      (∀ k, it.resume = some k → nearFn cmp it.fwd lo hi k = true) → snext cmp L it = (it', out) →
+      (∀ e, out = some e → nearFn cmp it.fwd lo hi e.1 = true ∧ keepFn cmp it.stop e.1 = true) ∧
+      (it'.fwd = it.fwd ∧ ∀ k, it'.resume = some k → nearFn cmp it'.fwd lo hi k = true) := by
+  refine ⟨fun L0 fwd => ⟨rfl, rfl, smk_near cmp L0 fwd lo hi⟩, ?_⟩
+  intro it it' out hinv h
   obtain ⟨a, b⟩ := snext_near hs hL lo hi hinv h
   refine ⟨fun e he => ⟨a e he, ?_⟩, b⟩
   subst he
@@ -193,6 +223,86 @@ theorem iter_sees_inserted_beyond_next (cmp : K → K → Int) (hs : StrictWeak 
     (hb : dcmp cmp it.fwd y.1 x.1 < 0) : Owes cmp it' x.1 ∧ it'.fwd = it.fwd ∧ it'.stop = it.stop :=
   snext_owes_beyond hs hL hx h hb
 
+/-- **The clauses, along a whole script** (audit C02-F5: the composition of `iter_refines_resume` with the step-local
+clause theorems above, as a theorem). From any state in the simulation relation (any reachable tree, any live
+iterators): create iterator `j` by `Range(lo, hi)` (`fwd`) / `RangeReverse(lo, hi)` and let *any* script follow that does
+not re-create slot `j` — `Put`s and `Delete`s of any keys (splits, merges, rotations, root collapse, emptying the
+tree), creation and `Next` calls of any other iterators, `Next` calls on `j` at any moments. Then the model runs to
+the end, and with `ys` = what `j`'s `Next` calls returned (model: the real code's answers), `vs` = the specification's
+views (for each of those calls: the contents of the map *at that moment* — `Sim` keeps it equal to the model tree's
+in-order contents — and the specification's answer):
+* `ys` is `vs`, call by call: an equivalent key with exactly the current value, or "exhausted" (`OutAll`);
+* every yielded entry is **present at that moment with its current value**, **inside the near bound** and the far
+  bound;
+* the yielded keys are **strictly monotone** in the iterator's direction (any two of them, not just neighbours) —
+  stated for the specification's answers and for the model's own;
+* **exhaustion is sticky**: after the first "exhausted" every later call says "exhausted", for both. -/
+theorem iter_script_clauses (cmp : K → K → Int) (hs : StrictWeak cmp) (m : MSt K V) (s : SSt K V) (h : Sim cmp m s)
+    (j : Nat) (fwd : Bool) (lo hi : Bound K) (hlo : lo.kind ≠ none) (hhi : hi.kind ≠ none)
+    (sts : List (Step K V)) (hno : NoMk j sts) :
+    ∃ m' os, mrun cmp m (.mk j fwd lo hi :: sts) = some (m', os) ∧
+      let ys := yieldsOf j (.mk j fwd lo hi :: sts) os
+      let vs := sviews cmp j s (.mk j fwd lo hi :: sts)
+      OutAll cmp ys (vs.map (·.2)) ∧
+      (∀ v ∈ vs, ∀ e, v.2 = some e →
+        e ∈ v.1 ∧ nearFn cmp fwd lo hi e.1 = true ∧ keepFn cmp (stopOf fwd lo hi) e.1 = true) ∧
+      ((vs.filterMap (·.2)).Pairwise (fun a c => dcmp cmp fwd a.1 c.1 < 0) ∧
+        (ys.filterMap id).Pairwise (fun a c => dcmp cmp fwd a.1 c.1 < 0)) ∧
+      (Sticky (vs.map (·.2)) ∧ Sticky ys) := by
+  obtain ⟨m', os, h1, _, h3⟩ := iter_refines_resume cmp hs (.mk j fwd lo hi :: sts) m s h
+  refine ⟨m', os, h1, ?_⟩
+  have hz : ¬ (lo.kind = none ∨ hi.kind = none) := fun hz => hz.elim hlo hhi
+  have hL : Sorted cmp s.L := by rw [h.list]; exact (inv_facts h.inv).choose_spec.2.2
+  have hrel := yieldsOf_rel (cmp := cmp) j (.mk j fwd lo hi :: sts) os _ h3
+  rw [← sviews_yields] at hrel
+  -- the specification side, from the creation on
+  have hv : sviews cmp j s (.mk j fwd lo hi :: sts) =
+      sviews cmp j { s with its := setSlot s.its j (smk cmp s.L fwd lo hi) } sts := by
+    simp [sviews, sstep, hz]
+  obtain ⟨c1, c2, c3⟩ := sviews_clauses hs j lo hi fwd (stopOf fwd lo hi) sts
+    { s with its := setSlot s.its j (smk cmp s.L fwd lo hi) } (smk cmp s.L fwd lo hi) none hL
+    (by simp [setSlot]) rfl rfl hno (smk_near cmp s.L fwd lo hi) (by intro b0 hb0; cases hb0)
+  have c2' : ((sviews cmp j s (.mk j fwd lo hi :: sts)).map (·.2)).filterMap id =
+      (sviews cmp j s (.mk j fwd lo hi :: sts)).filterMap (·.2) := by
+    rw [List.filterMap_map]; rfl
+  rw [← hv] at c1 c2 c3
+  refine ⟨hrel, fun v hv' e he => ⟨(c1 v hv' e he).1, (c1 v hv' e he).2.1, (c1 v hv' e he).2.2.1⟩,
+    ⟨c2, outAll_pairwise hs fwd _ _ hrel (by rw [c2']; exact c2)⟩, c3, outAll_sticky _ _ hrel c3⟩
+
+/-- **"No key that stays in the collection from the iterator's creation until the iterator has moved past it is
+skipped", along a whole script** (audit C02-F5). Create iterator `j` on a map that contains the entry `x` inside both
+bounds, then let any script follow (mutations of any keys, other iterators, `Next` calls on `j`; slot `j` not
+re-created) during which `x` is in the map whenever `j` is asked (`sviews`: the contents at each of those moments).
+Then `j`'s answers are entries strictly before `x` (in its direction) until it yields `x` itself — it never reports
+exhaustion and never yields an entry beyond `x` first; the model's answers are those, call by call (`OutAll`). The same
+holds from any later state in which the iterator still owes `x` (`sviews_no_skip`), in particular — "a key inserted
+beyond the next key the iterator yields, and not removed again, is yielded too" — from the moment `Next` yields `y`
+for every `x` present then and beyond `y` (`iter_sees_inserted_beyond_next`). -/
+theorem iter_script_no_skip (cmp : K → K → Int) (hs : StrictWeak cmp) (m : MSt K V) (s : SSt K V) (h : Sim cmp m s)
+    (j : Nat) (fwd : Bool) (lo hi : Bound K) (hlo : lo.kind ≠ none) (hhi : hi.kind ≠ none)
+    (sts : List (Step K V)) (hno : NoMk j sts) (x : K × V) (hx : x ∈ s.L)
+    (hnear : nearFn cmp fwd lo hi x.1 = true) (hfar : keepFn cmp (stopOf fwd lo hi) x.1 = true)
+    (hpers : ∀ v ∈ sviews cmp j s (.mk j fwd lo hi :: sts), x ∈ v.1) :
+    ∃ m' os, mrun cmp m (.mk j fwd lo hi :: sts) = some (m', os) ∧
+      let zs := (sviews cmp j s (.mk j fwd lo hi :: sts)).map (·.2)
+      OutAll cmp (yieldsOf j (.mk j fwd lo hi :: sts) os) zs ∧
+      ((∃ pre post, zs = pre ++ some x :: post ∧ ∀ y ∈ pre, ∃ e, y = some e ∧ dcmp cmp fwd e.1 x.1 < 0) ∨
+        (∀ y ∈ zs, ∃ e, y = some e ∧ dcmp cmp fwd e.1 x.1 < 0)) := by
+  obtain ⟨m', os, h1, _, h3⟩ := iter_refines_resume cmp hs (.mk j fwd lo hi :: sts) m s h
+  refine ⟨m', os, h1, ?_⟩
+  have hz : ¬ (lo.kind = none ∨ hi.kind = none) := fun hz => hz.elim hlo hhi
+  have hL : Sorted cmp s.L := by rw [h.list]; exact (inv_facts h.inv).choose_spec.2.2
+  have hrel := yieldsOf_rel (cmp := cmp) j (.mk j fwd lo hi :: sts) os _ h3
+  rw [← sviews_yields] at hrel
+  have hv : sviews cmp j s (.mk j fwd lo hi :: sts) =
+      sviews cmp j { s with its := setSlot s.its j (smk cmp s.L fwd lo hi) } sts := by
+    simp [sviews, sstep, hz]
+  refine ⟨hrel, ?_⟩
+  rw [hv] at hpers ⊢
+  exact sviews_no_skip hs j fwd (stopOf fwd lo hi) x hfar (keep_mono hs fwd lo hi) sts
+    { s with its := setSlot s.its j (smk cmp s.L fwd lo hi) } (smk cmp s.L fwd lo hi) hL (by simp [setSlot]) rfl rfl hno
+    (smk_owes hs hL fwd lo hi hx hnear).1 hpers
+
 /-- non-vacuity of the clause theorems: a forward iterator over `[(1,10),(3,30)]` from `Included 1`. After it
 yielded `1` it is parked on `3`: a key `2` inserted now (behind the parked key) is skipped — which the property
 allows —, a key `4` inserted beyond the next yield is yielded. -/
@@ -231,5 +341,14 @@ example : ∃ m' os, mrun exCmp (⟨Tree.empty, fun _ => none⟩ : MSt Int Int) 
       [some (some (12, 120)), some (some (13, 130)), some (some (14, 140))] := by
   obtain ⟨m', os, h1, _, h3⟩ := iter_refines_resume exCmp exCmp_sw lostScript _ _ (sim_init exCmp)
   exact ⟨m', os, h1, h3, by decide⟩
+
+/-- non-vacuity of `iter_script_clauses` on the lost-cursor script: after the 16 `Put`s the simulation relation holds
+(`iter_refines_resume`), the rest of the script — create iterator 0, two `Delete`s that merge its node away, three
+`Next`s — is an instance, and its views are `12 ↦ 120`, `13 ↦ 130`, `14 ↦ 140` (strictly ascending, inside
+`[12, ∞)`, present). -/
+example : NoMk 0 ([.mutate (.del 10), .mutate (.del 11), .next 0, .next 0, .next 0] : List (Step Int Int)) ∧
+    ((sviews exCmp 0 (srun exCmp (⟨[], fun _ => none⟩ : SSt Int Int) (lostScript.take 16)).1
+      (lostScript.drop 16)).map (·.2)) = [some (12, 120), some (13, 130), some (14, 140)] := by
+  refine ⟨by intro f lo hi hm; simp at hm, by decide⟩
 
 end Juniper.Props.C02
